@@ -171,6 +171,17 @@ class Terms:
                 return ("static", o["static"])
             if "def" in o:
                 return ("cdef", o["def"])
+            if "promoted" in o and self.prog is not None and not self.body.path.endswith("]"):
+                pb = self.prog.bodies.get("%s::promoted[%d]" % (self.body.path, o["promoted"]))
+                if pb is not None and len(pb.blocks) <= 3:
+                    pt = Terms(pb, None)
+                    rets = [pt.rvalue(x) if si != "t" else None for (bi, si, x) in pt.defs.whole[0]]
+                    if len(rets) == 1 and rets[0] is not None:
+                        r = rets[0]
+                        while r[0] in ("ref", "deref"):
+                            r = r[1]
+                        if r[0] in ("str", "bytes", "const", "mem", "aggr"):
+                            return ("ref", r)
             if "mem" in o and o["mem"] is not None:
                 return ("mem", tuple(o["mem"]), pp.ty(o["ty"]))
             if o.get("zst"):
